@@ -100,6 +100,9 @@ func runRobustLex(rc *RunCtx) *Violation {
 		defName += "(generated)"
 	}
 	rc.agg.Worlds[defName]++
+	if tmpl, ok := churnTemplates[ld.name]; ok && !useGen && simrt.Choose(40) == 1 {
+		return lexChurn(rc, def, defName, tmpl)
+	}
 	delims := runDelims(rc.seed)
 	maxSessions := 1
 	if simrt.Choose(4) == 1 {
@@ -296,4 +299,71 @@ func runRobustLex(rc *RunCtx) *Violation {
 	rc.note("terminal(state/post-calls)", term)
 	rc.note("tokens", emitted)
 	return nil
+}
+
+// churnTemplates: documents with two placeholders for definitions that cache per-input state
+// (compiled back-reference expansions keyed by captured text).
+var churnTemplates = map[string]string{
+	"heredoc":            "<<{A} x {B} y {A}\n",
+	"optgroup":           "a <<-{A} {B} {A} b",
+	"convoluted-backref": "<{A}|{B}> w {A} x {B} y",
+	"badbackref":         "a <<{A} {B} {A}",
+}
+
+// lexChurn reuses ONE definition over a long history of short inputs with pairwise distinct
+// captured texts (hundreds of distinct cache keys), the way a long-lived process does.
+func lexChurn(rc *RunCtx, def lexer.Definition, defName, tmpl string) *Violation {
+	n := 100 + simrt.Choose(500)
+	rc.probe("long history on one definition (hundreds of distinct back-reference expansions)")
+	var result *Violation
+	simrt.RunInline(func() {
+		for i := 0; i < n && result == nil; i++ {
+			d := strings.ReplaceAll(strings.ReplaceAll(tmpl, "{A}", fmt.Sprintf("K%dx", i)), "{B}", fmt.Sprintf("v%d", i*7))
+			viol := func(clause, detail string) *Violation {
+				return &Violation{Signature: "lex/" + defName + "/" + clause, Detail: fmt.Sprintf("%s; definition=%s, input number %d of a long history on one definition, input=%s", detail, defName, i+1, quoteClip(d, 120)), Input: d}
+			}
+			var lx lexer.Lexer
+			var err error
+			if p := catch(func() { lx, err = def.Lex("churn.txt", strings.NewReader(d)) }); p != "" {
+				result = viol("panic:"+sigNorm(p), "Lex panicked: "+p)
+				return
+			}
+			if err != nil {
+				continue
+			}
+			for k := 0; k <= len(d)+1; k++ {
+				var tok lexer.Token
+				base := simrt.Depth()
+				simrt.OpBegin(int64(10000 + 100*len(d)))
+				p := catch(func() { tok, err = lx.Next() })
+				steps, _, capHit := simrt.OpEnd(base)
+				rc.agg.SimSteps += steps
+				if capHit {
+					result = viol("nontermination", "Next did not return within its logical step cap")
+					return
+				}
+				if p != "" {
+					result = viol("panic:"+sigNorm(p), "Next panicked: "+p)
+					return
+				}
+				if err != nil || tok.EOF() {
+					break
+				}
+				if tok.Value == "" {
+					result = viol("empty-token", "Next returned an empty non-EOF token")
+					return
+				}
+				if k == len(d) {
+					result = viol("no-progress", "more tokens than input bytes")
+					return
+				}
+			}
+		}
+	})
+	rc.nontriv = true
+	rc.keyAdd("churn", defName, fmt.Sprint(n))
+	rc.note("kind", "long history on one definition")
+	rc.note("definition", defName)
+	rc.note("inputs", n)
+	return result
 }
